@@ -577,19 +577,19 @@ def overflow_dispatch(ck, rule_clamp, rule_wrapsel, roles):
         else:
             # path-based: the returned expression after substitution (named intermediate results are seen through)
             found_p = False
-            for pf_ in fpaths(prog, clipf):
-                if pf_.end != "return" or pf_.ret is None:
-                    continue
-                r = _clamp_form(prog, clipf, peel(pf_.ret)[0], allow_calls=False)
-                if r is not None:
-                    found_p = True
+            rets_ = [pf_ for pf_ in fpaths(prog, clipf) if pf_.end == "return" and pf_.ret is not None]
+            forms_ = [_clamp_form(prog, clipf, peel(pf_.ret)[0], allow_calls=False) for pf_ in rets_]
+            if rets_ and all(r is not None for r in forms_):         # every returning path is the max/min nest (no other route to a result)
+                found_p = True
+                ok = True
+                for pf_, r in zip(rets_, forms_):
                     x, lo, hi = r
                     ps = clipf.params
-                    ok = dotted(peel(x)[0]) == ps[0] and dotted(lo) == ps[1] and dotted(hi) == ps[2]
-                    if not ok:
+                    if not (dotted(peel(x)[0]) == ps[0] and dotted(lo) == ps[1] and dotted(hi) == ps[2]):
+                        ok = False
                         ck.bad(rule_clamp, clipf, "utils.clip(x, lo, hi) computes max(lo, min(hi, x))", "returns %s" % src(pf_.ret)[:80], pf_.ret_stmt,
                                "clamp with exchanged roles returns the wrong bound")
-                    break
+                        break
             if not found_p:
                 ck.bad(rule_clamp, clipf, "utils.clip body is a clamp", "no max/min nest found in utils.clip", clipf.node)
         if ok:
